@@ -8,11 +8,14 @@
 //!
 //! Family P (public path, `write_fonts::dump_table`): real `Gpos` tables with PairPos / MarkBasePos
 //! lookups large enough to force sub-table splitting and extension promotion, decoded by an
-//! independent byte-level GPOS reader (`gpos_raw`) and compared with the input rules.
+//! independent byte-level GPOS reader (`gpos_raw`) and compared with the input rules. Its
+//! device-slot sub-family (`slots`) attaches a device table to every subset of the four
+//! ValueRecord device slots / two anchor device slots, in tables just over the split thresholds.
 
 mod gpos_raw;
 mod gsub_path;
 mod public_path;
+mod slots;
 mod tables_path;
 mod writer_path;
 
@@ -743,6 +746,12 @@ fn body(run: &Run, replay: Option<&Value>) {
         let graphs: usize = cs.par_iter().map(|(_, auts)| sv.iter().filter(|s| sizes_canonical(s, auts)).count()).sum();
         println!("n6: {} canonical shapes, {} size vectors, {} graphs, t={:.1}s", cs.len(), sv.len(), graphs, run.elapsed());
         run.cap_hit("C05_ONLY=count6");
+        return;
+    }
+    if only == "slots" {
+        // development aid: only the device-slot sub-family of the public path
+        run.cap_hit("C05_ONLY=slots: everything but the device-slot tables skipped");
+        public_path::run_all(run);
         return;
     }
     if only == "public" {
